@@ -460,6 +460,13 @@ func (fx *FuncExec) havocHeap(st *State) {
 				local[p.Obj] = true
 			}
 		}
+		// the cell of a captured variable that no closure of this function assigns keeps its value
+		// (only closures of the enclosing function can write the variable itself)
+		if fv, ok := v.(*ssa.FreeVar); ok && !freeVarAssigned(fx.fn, fv, 0) {
+			if p, ok := r.(PtrV); ok && p.Obj != 0 {
+				local[p.Obj] = true
+			}
+		}
 	}
 	var ids []int
 	for id := range st.objs {
